@@ -30,7 +30,7 @@ KW_NAME = {
 
 PALETTE_SOLVERS = ('cg1', 'cg40', 'cg41', 'cg500', 'gm30', 'bi30')
 OPTION_KINDS = ('E', 'P', 'Y', 'PY')
-OPERATORS = ('A', 'B', 'AB', 'A2')
+OPERATORS = ('A', 'B', 'T', 'AB', 'A2', 'RC')
 
 _lock = threading.Lock()
 _cache: dict[str, Any] = {}
@@ -116,6 +116,14 @@ def operator(name: str):
                 _cache[key] = DenseBlockDiagonalOperator(
                     jnp.asarray(mat, jnp.float32), structure(), 'ij,j->i'
                 )
+            elif name == 'T':
+                # another operator class of the library without a closed-form inverse (same matrix as A)
+                from furax.operators.toeplitz import SymmetricBandToeplitzOperator
+
+                _cache[key] = SymmetricBandToeplitzOperator(jnp.asarray([4.0, -1.0], jnp.float32), structure(), method='dense')
+            elif name == 'RC':
+                # block row @ block column = A A + B B: a square product of non-square block operators
+                need = ('A', 'B')
             elif name == 'AB':
                 # a sum (AdditionOperator): what `(A + B).I` holds after reduce()
                 need = ('A', 'B')
@@ -126,8 +134,7 @@ def operator(name: str):
                 raise ValueError(name)
         if key in _cache:
             return _cache[key]
-    parts = [operator(n) for n in need]
-    built = (parts[0] + parts[1]).reduce() if name == 'AB' else (2.0 * parts[0]).reduce()
+    built = composite_source(name).reduce()
     with _lock:
         _cache.setdefault(key, built)
         return _cache[key]
@@ -139,6 +146,11 @@ def composite_source(name: str):
         return operator('A') + operator('B')
     if name == 'A2':
         return 2.0 * operator('A')
+    if name == 'RC':
+        from furax._base.blocks import BlockColumnOperator, BlockRowOperator
+
+        blocks = [operator('A'), operator('B')]
+        return BlockRowOperator(blocks) @ BlockColumnOperator(blocks)
     return operator(name)
 
 
